@@ -102,21 +102,21 @@ open Hc.Handover in
     steps, the reads net/http starts, and what arrives on the wire: the answer to the finish request is never written
     encrypted, and the connection has a current cryptographer only after that answer went out in plaintext. -/
 theorem hand_over_response_plaintext (strict : Bool) (ops : List Op) :
-    (run true strict ops).respEncrypted ≠ some true ∧
-    ((run true strict ops).cur = true → (run true strict ops).respEncrypted = some false) := by
+    (run true strict true ops).respEncrypted ≠ some true ∧
+    ((run true strict true ops).cur = true → (run true strict true ops).respEncrypted = some false) := by
   obtain ⟨h1, h2⟩ := inv_run strict ops
   refine ⟨h1, fun hc => ?_⟩
-  cases hr : (run true strict ops).respEncrypted with
+  cases hr : (run true strict true ops).respEncrypted with
   | none => rw [h2 hr] at hc; cases hc
   | some b => cases b <;> simp_all
 
 open Hc.Handover in
 /-- …and bytes the controller sent after the answer are handed on as plaintext only if no cryptographer has been
     negotiated at all: a read that was already waiting when the cryptographer was negotiated re-classifies them. -/
-theorem hand_over_reads_decrypted (strict : Bool) (s : Handover.St)
-    (h : (Handover.step true strict s .readDone).delivered = some false) (hd : s.delivered ≠ some false) :
+theorem hand_over_reads_decrypted (strict queue : Bool) (s : Handover.St)
+    (h : (Handover.step true strict queue s .readDone).delivered = some false) (hd : s.delivered ≠ some false) :
     s.cur = false ∧ s.next = false := by
-  obtain ⟨cur, next, pending, resp, wire, del, aw, cl, fp⟩ := s
+  obtain ⟨cur, next, pending, resp, wire, del, aw, cl, fp, qd, eo, ed⟩ := s
   cases cl
   · simp only [Handover.step, Bool.false_eq_true, if_false, if_true] at h
     (repeat' split at h) <;> first
@@ -131,35 +131,55 @@ open Hc.Handover in
     negotiates none with this request and has already answered it (an ordinary unverified connection, where they are
     refused by C01). In particular a plaintext request glued behind the genuine finish request is never served. -/
 theorem hand_over_no_foreign_plaintext (ops : List Op) :
-    (run true true ops).foreignPlain = true →
-      (run true true ops).cur = false ∧ (run true true ops).next = false ∧ (run true true ops).awaiting = false :=
+    (run true true true ops).foreignPlain = true →
+      (run true true true ops).cur = false ∧ (run true true true ops).next = false ∧ (run true true true ops).awaiting = false :=
   inv2_run ops
+
+open Hc.Handover in
+/-- Events of other goroutines (the application changes a value, a keep-alive) in the hand-over, for every operation
+    sequence: no event is written between the request and its answer — so none is written into the middle of the answer
+    and none is the write that activates the negotiated cryptographer (the answer stays plaintext, first theorem above) —
+    and every event that was kept back has been written once the answer is out. -/
+theorem hand_over_events_wait_for_the_answer (strict : Bool) (ops : List Op) :
+    (run true strict true ops).evDuring = false ∧
+    ((run true strict true ops).awaiting = false → (run true strict true ops).closed = false → (run true strict true ops).queued = 0) := by
+  exact ⟨inv3_run strict ops, inv4_run strict ops⟩
 
 open Hc.Handover in
 /-- the four interleavings of one finish request (read start before the negotiation, between negotiation and answer,
     after the answer, after the controller's bytes arrived): answer in plaintext, controller's bytes decrypted -/
 theorem hand_over_all_schedules :
-    allSchedules.all (fun ops => (run true true ops).respEncrypted == some false && (run true true ops).delivered == some true
-      && !(run true true ops).closed) = true ∧
+    allSchedules.all (fun ops => (run true true true ops).respEncrypted == some false && (run true true true ops).delivered == some true
+      && !(run true true true ops).closed) = true ∧
     allSchedules.length = 4 := by decide
 
 open Hc.Handover in
 /-- the code before the F18 repair fails on two of them: a read starting between negotiation and answer makes the answer
     go out ENCRYPTED (≈ 3 % of real handshakes, finding F18); a read already waiting hands ciphertext on as plaintext -/
 theorem hand_over_unfixed_refuted :
-    (run false false [.setCrypt, .readStart, .writeResp, .peerSends, .readDone]).respEncrypted = some true ∧
-    (run false false [.readStart, .setCrypt, .writeResp, .peerSends, .readDone]).delivered = some false := by decide
+    (run false false false [.setCrypt, .readStart, .writeResp, .peerSends, .readDone]).respEncrypted = some true ∧
+    (run false false false [.readStart, .setCrypt, .writeResp, .peerSends, .readDone]).delivered = some false := by decide
 
 open Hc.Handover in
 /-- the code before the F19 repair: a plaintext request that arrives in the same read as the genuine finish request
     (or while the handler has not yet negotiated the cryptographer) sits in net/http's buffer and is served after the
     hand-over, on a connection that by then counts as verified -/
 theorem hand_over_unstrict_refuted :
-    ((run true false [.excess, .setCrypt, .writeResp]).foreignPlain = true ∧ (run true false [.excess, .setCrypt, .writeResp]).cur = true) ∧
-    ((run true false [.readStart, .foreign, .readDone, .setCrypt, .writeResp]).foreignPlain = true ∧
-     (run true false [.readStart, .foreign, .readDone, .setCrypt, .writeResp]).cur = true) ∧
-    (run true true [.excess, .setCrypt, .writeResp]).closed = true ∧
-    (run true true [.readStart, .foreign, .readDone, .setCrypt, .writeResp]).closed = true := by decide
+    ((run true false false [.excess, .setCrypt, .writeResp]).foreignPlain = true ∧ (run true false false [.excess, .setCrypt, .writeResp]).cur = true) ∧
+    ((run true false false [.readStart, .foreign, .readDone, .setCrypt, .writeResp]).foreignPlain = true ∧
+     (run true false false [.readStart, .foreign, .readDone, .setCrypt, .writeResp]).cur = true) ∧
+    (run true true true [.excess, .setCrypt, .writeResp]).closed = true ∧
+    (run true true true [.readStart, .foreign, .readDone, .setCrypt, .writeResp]).closed = true := by decide
+
+open Hc.Handover in
+/-- the code before the F31 repair: an event that another goroutine writes between the negotiation and the answer is the
+    write that activates the new cryptographer — the answer to the finish request then goes out ENCRYPTED (the F18
+    symptom again, through a second writer), and the event sits between request and answer -/
+theorem hand_over_unqueued_refuted :
+    (run true true false [.setCrypt, .event, .writeResp]).respEncrypted = some true ∧
+    (run true true false [.event]).evDuring = true ∧
+    (run true true true [.setCrypt, .event, .writeResp]).respEncrypted = some false ∧
+    (run true true true [.setCrypt, .event, .writeResp]).evOut = 1 := by decide
 
 
 -- byte level of the `strict` flag above: how a plaintext connection finds the end of a request (hap/connection.go
